@@ -398,8 +398,11 @@ class InteractingNetworks(Network):
         """
         #  Create igraph Graph object describing the subgraph
         subgraph = self.graph.subgraph(node_list)
-        #  Get adjacency matrix
-        return np.array(subgraph.get_adjacency(type=2).data).astype(np.int8)
+        #  Get adjacency matrix (igraph orders the subgraph's vertices by
+        #  increasing index: map rows and columns back to the given order)
+        order = np.argsort(np.argsort(node_list))
+        A = np.array(subgraph.get_adjacency(type=2).data).astype(np.int8)
+        return A[order, :][:, order]
 
     def cross_adjacency(self, node_list1, node_list2):
         """
@@ -493,7 +496,10 @@ class InteractingNetworks(Network):
                 weights[e.tuple] = e[attribute_name]
                 weights[e.tuple[1], e.tuple[0]] = e[attribute_name]
 
-        return weights
+        #  igraph orders the subgraph's vertices by increasing index: map rows
+        #  and columns back to the given order
+        order = np.argsort(np.argsort(node_list))
+        return weights[order, :][:, order]
 
     def cross_link_attribute(self, attribute_name, node_list1, node_list2):
         """
